@@ -236,16 +236,72 @@ def rule_cs_trigger(cx, rep, port):
     for fname, need in (('quote_field', {'"', '<delim>'}), ('rfc_quote_field', {'"', '<delim>', '\n', '\r'})):
         fd = p.func('csv_utils', fname)
         params = [a.arg for a in fd.args.args]
-        tests = _find_tests(fd, params)
-        trig = set()
-        for val, pos, n in tests:
-            if pos:
-                trig.add('<delim>' if val == '<{}>'.format(params[1]) else val)
-        missing = need - trig
-        if missing:
-            rep.violated(fname + ' triggers', fd, 'a field containing {} is written unquoted but the reader treats that character specially: the table does not read back identically'.format(sorted(repr(m) for m in missing)))
+        # every path that hands the field back unquoted has established the absence of each special character (path summaries:
+        # fast paths, merged conditions, `in` tests, helper predicates are all the same thing)
+        from .. import pathsem
+        ps = pathsem.paths(fd)
+        if ps is None:
+            rep.undecided(fname + ' triggers', fd, '{} is not summarisable as paths'.format(fname))
         else:
-            rep.holds(fname + ' triggers', fd, 'quoting is triggered by {}'.format(sorted(trig)))
+            def absent_of(atom, pol):
+                """which character does this decision show to be absent from the field?"""
+                src_, dl_ = params[0], params[1]
+                def ch(e):
+                    if is_name(e, dl_):
+                        return '<delim>'
+                    v = const_value(e)
+                    return v if isinstance(v, str) and len(v) >= 1 else None
+                if isinstance(atom, ast.Compare) and len(atom.ops) == 1:
+                    l_, r_, op = atom.left, atom.comparators[0], atom.ops[0]
+                    if isinstance(l_, ast.Call) and isinstance(l_.func, ast.Attribute) and l_.func.attr in ('find', 'indexOf') and is_name(l_.func.value, src_) and len(l_.args) == 1 and ch(l_.args[0]):
+                        present = None
+                        if _is_minus_one(r_):
+                            present = {ast.NotEq: True, ast.Eq: False, ast.Gt: True, ast.Is: False, ast.IsNot: True}.get(type(op))
+                        elif isinstance(r_, ast.Constant) and r_.value == 0 and r_.value is not False:
+                            present = {ast.GtE: True, ast.Lt: False}.get(type(op))
+                        if present is not None and present != pol:
+                            return ch(l_.args[0])
+                    if isinstance(op, (ast.In, ast.NotIn)) and is_name(r_, src_) and ch(l_):
+                        present = isinstance(op, ast.In)
+                        if present != pol:
+                            return ch(l_)
+                if isinstance(atom, ast.Call) and isinstance(atom.func, ast.Attribute) and atom.func.attr == 'includes' and is_name(atom.func.value, src_) and len(atom.args) == 1 and ch(atom.args[0]) and not pol:
+                    return ch(atom.args[0])
+                return None
+            n_plain = 0
+            bad = None
+            for q in ps:
+                if q.kind != 'return' or q.value is None or not is_name(q.value, params[0]):
+                    continue
+                n_plain += 1
+                absent = {absent_of(a_, pol) for a_, pol in pathsem.atoms(q.conds)} - {None}
+                unknown = []
+                for a_, pol in pathsem.atoms(q.conds):
+                    if absent_of(a_, pol) is not None:
+                        continue
+                    # character-class predicates of the field: true -> no quote, no line break in it (says nothing about the delimiter)
+                    if pol and isinstance(a_, ast.Call) and isinstance(a_.func, ast.Attribute) and a_.func.attr in ('isalnum', 'isalpha', 'isdigit', 'isdecimal', 'isnumeric', 'isidentifier') and is_name(a_.func.value, params[0]) and not a_.args:
+                        absent |= {'"', '\n', '\r'}
+                        continue
+                    # a test that found a special character, or the emptiness of the field, does not widen what may be returned bare
+                    unknown.append(a_)
+                missing = need - absent
+                if missing and unknown and any(params[0] in names_in(u_) for u_ in unknown if not (isinstance(u_, ast.Compare) and isinstance(u_.left, ast.Call) and isinstance(u_.left.func, ast.Attribute) and u_.left.func.attr in ('find', 'indexOf'))):
+                    rep.undecided(fname + ' triggers', q.node, 'a path returns the field unquoted under `{}`, which is not a recognised test of the field\'s characters'.format(' / '.join(node_text(u_, 40) for u_ in unknown)))
+                    n_plain = -1
+                    break
+                if missing:
+                    why = [node_text(t_, 40) for t_, pol in q.conds if absent_of(t_, pol) is None]
+                    bad = (q, missing, why)
+                    break
+            if bad is not None:
+                rep.violated(fname + ' triggers', bad[0].node, 'a path returns the field unquoted without having excluded {}{}: a field containing it is written bare but the reader treats that character specially, so the table does not read back identically'.format(sorted(repr(m) for m in bad[1]), ' (taken when `{}`)'.format('` / `'.join(bad[2])) if bad[2] else ''))
+            elif n_plain == -1:
+                pass
+            elif not n_plain:
+                rep.undecided(fname + ' triggers', fd, 'no path returns the field itself')
+            else:
+                rep.holds(fname + ' triggers', fd, 'the field is returned unquoted only after {} were all found absent ({} path(s))'.format(sorted(need), n_plain))
         # doubling of inner quotes + enclosing quotes
         reps = [c for c in walk_no_nested(fd) if isinstance(c, ast.Call) and isinstance(c.func, ast.Attribute) and c.func.attr == 'replace' and len(c.args) == 2]
         ok_rep = False
